@@ -74,8 +74,38 @@ def eval_expr(e: ast.expr, env: dict[str, Any], oracle: Oracle | None = None) ->
         return env[e.target.id]
     if isinstance(e, ast.Await):
         return eval_expr(e.value, env, oracle)
+    if isinstance(e, ast.Subscript):
+        base = eval_expr(e.value, env, oracle)
+        if isinstance(base, (str, bytes, list, tuple)):
+            if isinstance(e.slice, ast.Slice):
+                lo = eval_expr(e.slice.lower, env, oracle) if e.slice.lower is not None else None
+                hi = eval_expr(e.slice.upper, env, oracle) if e.slice.upper is not None else None
+                st = eval_expr(e.slice.step, env, oracle) if e.slice.step is not None else None
+                return base[lo:hi:st]
+            return base[eval_expr(e.slice, env, oracle)]
+    if isinstance(e, ast.JoinedStr):
+        out = ""
+        for v in e.values:
+            if isinstance(v, ast.Constant):
+                out += str(v.value)
+            elif isinstance(v, ast.FormattedValue) and v.format_spec is None and v.conversion == -1:
+                out += str(eval_expr(v.value, env, oracle))
+            else:
+                raise AnalysisError(f"f-string outside the language: {ast.unparse(e)}")
+        return out
+    if isinstance(e, ast.Call) and isinstance(e.func, ast.Attribute) and e.func.attr in ("decode", "hex", "upper", "lower") and not e.args and not e.keywords:
+        recv = eval_expr(e.func.value, env, oracle)
+        if isinstance(recv, (str, bytes)):
+            return getattr(recv, e.func.attr)()
     if isinstance(e, ast.Call):
         f = ast.unparse(e.func)
+        if f == "len" and len(e.args) == 1 and not e.keywords:
+            try:
+                v = eval_expr(e.args[0], env, oracle)
+                if isinstance(v, (str, bytes, list, tuple, dict)):
+                    return len(v)
+            except AnalysisError:
+                pass
         if f in ("max", "min", "int", "abs", "float", "round", "bool") and not e.keywords:
             args = [eval_expr(a, env, oracle) for a in e.args]
             return {"max": max, "min": min, "int": int, "abs": abs, "float": float, "round": round, "bool": bool}[f](*args)
